@@ -222,7 +222,16 @@ fn hex_malform(t: &mut Tape, s: &str) -> (String, &'static str) {
         }
         3 => {
             let i = t.index(b.len());
-            b[i] = t.pick(b"gG zx+-/:@`");
+            b[i] = if t.bool() {
+                t.pick(b"gG zx+-/:@`")
+            } else {
+                // any 7-bit byte that is not a hex digit (control characters included)
+                let mut ch = t.below(128) as u8;
+                if ch.is_ascii_hexdigit() {
+                    ch = b'g';
+                }
+                ch
+            };
             "invalid character"
         }
         4 => {
